@@ -3,9 +3,10 @@
    Gen.MpiC16.sc_mpi_sizeof, which the translator regenerates from sc_mpi.c on every run (tie T1).
    Buffers are byte lists; every memcpy is a checked copy (None = the copy would leave a buffer), so
    that "no overrun" is a theorem.  Output arguments are options: None = the stub does not store. *)
-From Coq Require Import ZArith List Bool.
+From Coq Require Import ZArith List Bool String Ascii.
 From ScV Require Import Base.CInt Gen.MpiC16 C11.IoModel.
 Import ListNotations.
+Local Open Scope string_scope.
 Local Open Scope Z_scope.
 
 Definition SUCCESS : Z := h_MPI_SUCCESS.
@@ -20,19 +21,27 @@ Definition GROUP_NULL : Z := h_MPI_GROUP_NULL.
 Definition memcpy_at (dst : list Z) (off : Z) (src : list Z) (from n : Z) : option (list Z) :=
   if (0 <=? n) && (0 <=? from) && (from + n <=? len src) then put off (take n (drop from src)) dst else None.
 
-(* ---- collectives (sc_mpi.c:243-376): return code and the receive buffer ---- *)
+(* ---- collectives (sc_mpi.c:243-376): return code and the receive buffer ----
+   Every copy is described by (offset into the destination, offset into the source, byte count); MpiGen.v proves that
+   these are the arguments of the memcpy in the GENERATED body of the stub, for all addresses of the two buffers. *)
+(* `(size_t) n * sc_mpi_sizeof (t)`, also used with n = displ[0] for the target offset of Gatherv *)
+Definition copy_len (n t : Z) : Z := u64 (u64 n * sc_mpi_sizeof t).
+
+Definition gather_copy (np tp : Z) : Z * Z * Z := (0, 0, copy_len np tp).
+Definition gatherv_copy (np tp displ0 tq : Z) : Z * Z * Z := (copy_len displ0 tq, 0, copy_len np tp).
+
 Definition sc_gather (p : list Z) (np tp : Z) (q : list Z) (nq tq : Z) : Z * option (list Z) :=
-  (SUCCESS, memcpy_at q 0 p 0 (np * sc_mpi_sizeof tp)).
+  let '(d, s, n) := gather_copy np tp in (SUCCESS, memcpy_at q d p s n).
 
 Definition sc_gatherv (p : list Z) (np tp : Z) (q : list Z) (recvc0 displ0 tq : Z) : Z * option (list Z) :=
-  (SUCCESS, memcpy_at q (displ0 * sc_mpi_sizeof tq) p 0 (np * sc_mpi_sizeof tp)).
+  let '(d, s, n) := gatherv_copy np tp displ0 tq in (SUCCESS, memcpy_at q d p s n).
 
 Definition sc_allgather := sc_gather.
 Definition sc_allgatherv := sc_gatherv.
 Definition sc_alltoall := sc_gather.
 
 Definition sc_reduce (p q : list Z) (n t op : Z) : Z * option (list Z) :=
-  (SUCCESS, memcpy_at q 0 p 0 (n * sc_mpi_sizeof t)).
+  let '(d, s, l) := gather_copy n t in (SUCCESS, memcpy_at q d p s l).
 Definition sc_reduce_scatter_block := sc_reduce.
 Definition sc_allreduce := sc_reduce.
 Definition sc_scan := sc_reduce.
@@ -40,22 +49,29 @@ Definition sc_exscan (p q : list Z) (n t op : Z) : Z * option (list Z) := (SUCCE
 Definition sc_bcast (p : list Z) (n t : Z) : Z * option (list Z) := (SUCCESS, Some p).
 Definition sc_barrier : Z := SUCCESS.
 
-(* ---- sizes, pack, unpack (sc_mpi.c:95-101, 453-518) ---- *)
+(* ---- sizes, pack, unpack (sc_mpi.c:95-101, 453-518): `int` arithmetic as in the code (wrapping) ---- *)
 Definition sc_type_size (t : Z) : Z * option Z := (SUCCESS, Some (s32 (sc_mpi_sizeof t))).
-Definition sc_pack_size (incount t : Z) : Z * option Z := (SUCCESS, Some (s32 (s32 (sc_mpi_sizeof t) * incount))).
-
+(* *size after sc_MPI_Pack_size: `*size = sc_mpi_sizeof (t); *size *= incount;` *)
 Definition pack_bytes (incount t : Z) : Z := s32 (s32 (sc_mpi_sizeof t) * incount).
+Definition sc_pack_size (incount t : Z) : Z * option Z := (SUCCESS, Some (pack_bytes incount t)).
+
+(* `*position + size > limit` in int arithmetic *)
+Definition pack_refuses (position size limit : Z) : bool := limit <? s32 (position + size).
+(* the memcpy of Pack / Unpack: (offset into the destination, offset into the source, (size_t) size) *)
+Definition pack_copy (position size : Z) : Z * Z * Z := (position, 0, u64 size).
+Definition unpack_copy (position size : Z) : Z * Z * Z := (0, position, u64 size).
+Definition pack_advance (position size : Z) : Z := s32 (position + size).
 
 (* result: code, output buffer, *position *)
 Definition sc_pack (inbuf : list Z) (incount t : Z) (outbuf : list Z) (outsize position : Z) : Z * option (list Z) * Z :=
   let size := pack_bytes incount t in
-  if position + size >? outsize then (ERR_NO_SPACE, Some outbuf, position)
-  else (SUCCESS, memcpy_at outbuf position inbuf 0 size, position + size).
+  if pack_refuses position size outsize then (ERR_NO_SPACE, Some outbuf, position)
+  else let '(d, s, n) := pack_copy position size in (SUCCESS, memcpy_at outbuf d inbuf s n, pack_advance position size).
 
 Definition sc_unpack (inbuf : list Z) (insize position : Z) (outbuf : list Z) (outcount t : Z) : Z * option (list Z) * Z :=
   let size := pack_bytes outcount t in
-  if position + size >? insize then (ERR_NO_SPACE, Some outbuf, position)
-  else (SUCCESS, memcpy_at outbuf 0 inbuf position size, position + size).
+  if pack_refuses position size insize then (ERR_NO_SPACE, Some outbuf, position)
+  else let '(d, s, n) := unpack_copy position size in (SUCCESS, memcpy_at outbuf d inbuf s n, pack_advance position size).
 
 (* ---- communicators and groups (sc_mpi.c:61-157) ---- *)
 Definition sc_comm_size (comm : Z) : Z * option Z := (SUCCESS, Some 1).
@@ -67,7 +83,7 @@ Definition sc_comm_group (comm : Z) : Z * option Z := (SUCCESS, Some GROUP_NULL)
 Definition sc_group_size (g : Z) : Z * option Z := (SUCCESS, Some 1).
 Definition sc_group_rank (g : Z) : Z * option Z := (SUCCESS, Some 0).
 Definition sc_group_free (g : Z) : Z * option Z := (SUCCESS, Some GROUP_NULL).
-Definition sc_init_thread : Z * option Z := (SUCCESS, Some 0).       (* provided = sc_MPI_THREAD_SINGLE *)
+Definition sc_init_thread : Z * option Z := (SUCCESS, Some h_MPI_THREAD_SINGLE).
 
 (* ---- completion calls on request arrays (sc_mpi.c:433-439, 537-594); None = SC_CHECK_ABORT fires ---- *)
 Definition all_null (reqs : list Z) : bool := forallb (fun r => r =? REQUEST_NULL) reqs.
@@ -86,3 +102,26 @@ Definition known_codes : list Z :=
    h_MPI_ERR_FILE_IN_USE; h_MPI_ERR_DUP_DATAREP; h_MPI_ERR_CONVERSION; h_MPI_ERR_IO].
 Definition sc_error_class (code : Z) : Z * option Z :=
   if existsb (fun c => c =? code) known_codes then (SUCCESS, Some code) else (ERR_UNKNOWN, Some ERR_UNKNOWN).
+
+(* ---- sc_MPI_Error_string without MPI (sc_mpi.c:643-746): code, the text placed in `string`, *resultlen ---- *)
+Definition bytes (s : string) : list Z := map (fun c => Z.of_nat (nat_of_ascii c)) (list_ascii_of_string s).
+(* evaluated: a list of numbers (extraction must not meet Coq's `string`, which would shadow OCaml's) *)
+Definition error_messages : list (Z * list Z) := Eval vm_compute in
+  [(h_MPI_SUCCESS, bytes "Success"); (h_MPI_ERR_ARG, bytes "Error in function argument"); (h_MPI_ERR_UNKNOWN, bytes "Unknown MPI error");
+   (h_MPI_ERR_OTHER, bytes "Other MPI error"); (h_MPI_ERR_NO_MEM, bytes "Out of memory"); (h_MPI_ERR_FILE, bytes "Invalid file object");
+   (h_MPI_ERR_NOT_SAME, bytes "Arguments do not match in parallel"); (h_MPI_ERR_AMODE, bytes "Invalid access mode");
+   (h_MPI_ERR_UNSUPPORTED_DATAREP, bytes "Unsupported data representation"); (h_MPI_ERR_UNSUPPORTED_OPERATION, bytes "Unsupported operation");
+   (h_MPI_ERR_NO_SUCH_FILE, bytes "No such file"); (h_MPI_ERR_FILE_EXISTS, bytes "File exists"); (h_MPI_ERR_BAD_FILE, bytes "Bad file name or path");
+   (h_MPI_ERR_ACCESS, bytes "Permission denied"); (h_MPI_ERR_NO_SPACE, bytes "Out of disk space"); (h_MPI_ERR_QUOTA, bytes "Out of quota");
+   (h_MPI_ERR_READ_ONLY, bytes "File is read-only"); (h_MPI_ERR_FILE_IN_USE, bytes "File is in use");
+   (h_MPI_ERR_DUP_DATAREP, bytes "Duplicate data representation"); (h_MPI_ERR_CONVERSION, bytes "File conversion error");
+   (h_MPI_ERR_IO, bytes "I/O or format error")].
+Fixpoint message_of (code : Z) (l : list (Z * list Z)) : option (list Z) :=
+  match l with [] => None | (k, m) :: r => if k =? code then Some m else message_of code r end.
+Definition MAX_ERROR_STRING : Z := h_MPI_MAX_ERROR_STRING.
+(* snprintf (string, MAX, "%s", text) stores at most MAX - 1 characters and returns the length of text *)
+Definition sc_error_string (code : Z) : Z * option (list Z) * option Z :=
+  match message_of code error_messages with
+  | Some m => (SUCCESS, Some (take (MAX_ERROR_STRING - 1) m), Some (if MAX_ERROR_STRING <=? len m then MAX_ERROR_STRING - 1 else len m))
+  | None => (ERR_UNKNOWN, None, None)
+  end.
